@@ -440,16 +440,23 @@ def assemble(unit, template_text=None, probes=False):
     infos = []
     pos = 0
     cur_line = 1
+    default_first = None
     for m in re.finditer(r"/\*@(.*?)@\*/", template_text, re.S):
         seg = template_text[pos:m.start()]
         out.append(seg)
         cur_line += seg.count("\n")
         pos = m.end()
         head, sections = parse_directive(m.group(1))
+        dm = re.match(r"default-first\s*(.*)$", head, re.S)
+        if dm:
+            default_first = dm.group(1).strip() or None
+            continue
         hm = re.match(r"(fn|item)\s+(\S+)\s+([^;]+?)\s*(?:;\s*(.*))?$", head)
         if not hm:
             raise AssembleError("bad directive head: %r" % head)
         kind, file_spec, item_spec, opts = hm.group(1), hm.group(2), hm.group(3), (hm.group(4) or "").split()
+        if kind == "fn" and default_first and "nofirst" not in opts:
+            sections = [("first", default_first)] + list(sections)
         text, info, rel = build_fn(unit, file_spec, item_spec, opts, sections, log, probes)
         # indent to the directive's column
         col = len(seg) - (seg.rfind("\n") + 1) if "\n" in seg else 0
